@@ -1,5 +1,5 @@
 import Hive.Model.WorkerPoolSched
-import Hive.Model.WorkerPoolGroup
+import Hive.Model.WorkerPoolGroupSd
 import Hive.Base.Proto
 /-!
 # Line protocol of `drv_c16`
@@ -14,7 +14,7 @@ namespace Hive.WP
 structure DrvSt where
   cancel : Bool := false
   mon : Option Mon := some Mon.init
-  tree : Hive.WPG.Tree := []
+  gs : Hive.WPG.GS := {}
   subs : List Hive.WPG.Sub := []
 
 def DrvSt.init : DrvSt := {}
@@ -24,28 +24,42 @@ def stepLine (s : DrvSt) (toks : List String) : DrvSt × String :=
   | ["cfg", _, c] => ({ cancel := c == "true", mon := some Mon.init }, "ok")
   | "run" :: _ => (s, "ok")
   | "hammer" :: _ => (s, "ok")
-  | "group" :: _ => ({ s with tree := [], subs := [] }, "ok")
+  | "lockrace" :: _ => (s, "ok")
+  | "group" :: _ => ({ s with gs := {}, subs := [] }, "ok")
   | ["g", op, a] =>
-    let parsed : Option Hive.WPG.Op :=
+    let parsed : Option Hive.WPG.SOp :=
       match op, a.toNat? with
-      | "newgroup", some n => some (.newGroup (some n))
-      | "newpool", some n => some (.newPool n)
-      | "inc", some n => some (.inc n)
-      | "dec", some n => some (.dec n)
-      | "newgroup", none => if a == "-" then some (.newGroup none) else none
-      | "newpoolsub", some n => some (.newPool n)
+      | "newgroup", some n => some (.base (.newGroup (some n)))
+      | "newpool", some n => some (.base (.newPool n))
+      | "inc", some n => some (.base (.inc n))
+      | "incw", some n => some (.base (.inc n))
+      | "incdone", some n => some (.base (.inc n))
+      | "dec", some n => some (.base (.dec n))
+      | "newgroup", none => if a == "-" then some (.base (.newGroup none)) else none
+      | "newpoolsub", some n => some (.base (.newPool n))
+      | "newpoolpark", some n => some (.base (.newPool n))
+      | "sdflag", some n => some (.flag n)
+      | "sdstop", some n => some (.stop n)
+      | "shutdown", some n => some (.shutdown n)
       | _, _ => none
+    let tree := s.gs.tree
     match parsed, op, a.toNat? with
     | some o, _, _ =>
-      if o.ok s.tree then
-        let t' := Hive.WPG.step s.tree o
+      if o.ok s.gs then
+        let gs' := Hive.WPG.stepS s.gs o
+        let t' := gs'.tree
         -- `newpoolsub`: the pool is created with a user subscriber attached through an option (before the group's own)
-        let subs := Hive.WPG.observe s.tree t' s.subs ++
-          (if op == "newpoolsub" then [{ node := s.tree.length, active := true, stream := [] }] else [])
-        ({ s with tree := t', subs := subs }, "ok " ++ Hive.Proto.showNatList (t'.map (·.value)))
+        let subs := Hive.WPG.observe tree t' s.subs ++
+          (if op == "newpoolsub" then [{ node := tree.length, active := true, stream := [] }] else [])
+        -- `incw`: only the counters on the parent chain are readable (another pool is in the middle of an update)
+        let shown := if op == "incw" then Hive.WPG.chainVals (t'.length + 1) t' (a.toNat?.getD 0) else t'.map (·.value)
+        ({ s with gs := gs', subs := subs },
+         if op == "sdflag" then "ok" else "ok " ++ Hive.Proto.showNatList shown)
       else (s, "skip")
+    | none, "sdbegin", some _ => (s, "ok")
+    | none, "isshut", some g => (s, if Hive.WPG.isShut s.gs g then "true" else "false")
     | none, "sub", some n =>
-      if n < s.tree.length then
+      if n < tree.length then
         ({ s with subs := s.subs ++ [{ node := n, active := true, stream := [] }] }, s!"ok {s.subs.length}")
       else (s, "skip")
     | none, "unsub", some k =>
@@ -56,7 +70,7 @@ def stepLine (s : DrvSt) (toks : List String) : DrvSt × String :=
       match s.subs[k]? with
       | some sb => (s, Hive.WPG.showStream sb.stream)
       | none => (s, "skip")
-    | none, "wait", some g => (s, if Hive.WPG.waitChildrenReturns s.tree g then "returns" else "blocks")
+    | none, "wait", some g => (s, if Hive.WPG.waitChildrenReturns tree g then "returns" else "blocks")
     | _, _, _ => (s, "bad-op")
   | ["quiet"] =>
     match s.mon with
